@@ -119,17 +119,22 @@ pub struct ThrottledSrc<'a> {
     pub reads_after_eof: u64,
     pub eof_seen: bool,
     pub seeks: u64,
+    /// step bound: reads beyond this number of calls fail
+    pub max_calls: u64,
 }
 
 impl<'a> ThrottledSrc<'a> {
     pub fn new(data: &'a [u8], sched: Sched) -> Self {
-        ThrottledSrc { data, pos: 0, sched, calls: 0, reads_after_eof: 0, eof_seen: false, seeks: 0 }
+        ThrottledSrc { data, pos: 0, sched, calls: 0, reads_after_eof: 0, eof_seen: false, seeks: 0, max_calls: u64::MAX }
     }
 }
 
 impl Read for ThrottledSrc<'_> {
     fn read(&mut self, buf: &mut [u8]) -> io::Result<usize> {
         self.calls += 1;
+        if self.calls > self.max_calls {
+            return Err(io::Error::new(io::ErrorKind::Other, "harness step bound exceeded"));
+        }
         if self.eof_seen {
             self.reads_after_eof += 1;
         }
